@@ -167,5 +167,3 @@ func (e *PipeEnd) Closed() bool { return e.p.closed[e.side] }
 
 // Pending returns the number of undelivered frames towards this end.
 func (e *PipeEnd) Pending() int { return len(*e.inq()) }
-
-func (e *PipeEnd) readNonblock(buf []byte) ([]byte, error) { panic("poll emulation not built yet") }
